@@ -13,6 +13,7 @@ import (
 	"fmt"
 	"os"
 	"strconv"
+	"time"
 )
 
 const verifDir = "/verif"
@@ -81,6 +82,47 @@ func main() {
 		}
 	case "selftest-determinism":
 		os.Exit(selftestDeterminism(os.Args[2:]))
+	case "one":
+		// simcheck one <Cnn> <seed> [tier]: run one seed with the event log
+		if len(os.Args) < 4 {
+			die2("usage: simcheck one <Cnn> <seed> [tier]")
+		}
+		p := props[os.Args[2]]
+		if p == nil {
+			die2("unknown property")
+		}
+		bin, err := buildWorld(worlds[p.World])
+		if err != nil {
+			die2("%v", err)
+		}
+		sd, _ := strconv.ParseUint(os.Args[3], 10, 64)
+		tier := "quick"
+		if len(os.Args) > 4 {
+			tier = os.Args[4]
+		}
+		res := runWorker(bin, &Request{Prop: os.Args[2], Mode: "seeds", Tier: tier, Seeds: []uint64{sd}, WantLog: true, WantSc: true}, 10*time.Minute)
+		fmt.Println(res.stderr)
+		for _, r := range res.replies {
+			fmt.Println(string(r.Scenario))
+			if r.Outcome != nil {
+				for _, l := range r.Outcome.Log {
+					fmt.Println(l)
+				}
+				fmt.Printf("viol=%+v\nprobes=%v faults=%v notes=%v\nstats=%+v deadlock=%v\npanic=%s\n", r.Outcome.Viol, r.Outcome.Probes, r.Outcome.Faults, r.Outcome.Notes, r.Outcome.Stats, r.Outcome.Deadlock, r.Outcome.Panic)
+			}
+		}
+		fmt.Println("exit", res.exit)
+	case "gen":
+		p := props[os.Args[2]]
+		bin, err := buildWorld(worlds[p.World])
+		if err != nil {
+			die2("%v", err)
+		}
+		sd, _ := strconv.ParseUint(os.Args[3], 10, 64)
+		res := runWorker(bin, &Request{Prop: os.Args[2], Mode: "gen", Tier: "quick", Seeds: []uint64{sd}}, time.Minute)
+		for _, r := range res.replies {
+			fmt.Println(string(r.Scenario))
+		}
 	case "manifest":
 		writeManifest()
 	case "list":
